@@ -1139,7 +1139,9 @@ func ImportToPath(pkgPath, pkgName string) string {
 func (decl ImportDecl) CoqDecl() string {
 	coqPath := pathToCoqPath(decl.Path)
 	coqImportPath := strings.ReplaceAll(path.Dir(coqPath), "/", ".")
-	name := path.Base(decl.Path)
+	// the last component is mapped like the rest of the path (it names the
+	// file ImportToPath writes)
+	name := path.Base(coqPath)
 	if decl.Trusted {
 		return fmt.Sprintf("From Perennial.goose_lang.trusted Require Import %s.%s.", coqImportPath, name)
 	} else {
